@@ -24,6 +24,12 @@ def setup(J):
         for sep, k in ((",", 2), (" ", 3), (",", 0)):   # k = 0: an EMPTY sub-stream (no member, so no Upstream entry)
             jobs.append(J.with_delay_fallback(J.wf("C10", "gjoin", k, 1, 2, "cmd", oracles=["nohang", "clean", "c10", "c18"], tier=tier, events_dep=False, extra=sep, id=f"C10-gjoin-k{k}-sep{ord(sep)}")))
         jobs.append(J.with_delay_fallback(J.wf("C10", "gjoin3", 2, 1, 2, "cmd", oracles=["nohang", "clean", "c10"], tier=tier, events_dep=False, extra=",", id="C10-gjoin3-k2")))
+        # a stale audit file of an earlier run sits where an output is about to be produced (its data file is gone)
+        for g, stale in (("g3", {"in0.txt.p": "x"}), ("g7", {"in0.txt.o1": "x", "in0.txt.o2": "y"})):
+            sj = J.wf("C10", g, 1, 1, 1, "cmd", oracles=["nohang", "c10", "c04"], tier=tier, events_dep=False, id=f"C10-{g}-i1-m1-cmd-stale-audit-files")
+            sj["stale_audit"] = stale
+            sj.pop("_native", None)
+            jobs.append(J.with_delay_fallback(sj))
         # IPs that exist before their files do (FileSplitter parts: their record is loaded lazily) fanned out to a tagging arm and a sibling
         jobs.append(J.with_delay_fallback(J.wf("C10", "gsplit14", 1, 1, 2, "cmd", oracles=["nohang", "c10"], tier=tier, events_dep=False, id="C10-gsplit14-i1-m2-cmd")))
         jobs.append(J.with_delay_fallback(J.wf("C10", "gsplit14", 1, 1, 1, "func", oracles=["nohang", "c10"], tier=tier, events_dep=False, id="C10-gsplit14-i1-m1-func")))
@@ -44,7 +50,7 @@ def setup(J):
         q = tier == "quick"
         o_full = ["nohang", "clean", "c10", "c04", "c11-roundtrip"]
         o_resume = ["nohang", "clean", "c10", "c04", "c11-roundtrip", "c11-unchanged"]
-        combos = [("g3", 1, 1, "cmd"), ("g3", 1, 1, "func"), ("g7", 1, 1, "cmd"), ("g14a", 1, 1, "cmd"), ("g8", 1, 1, "cmd"), ("g8", 2, 1, "cmd", "escparam"), ("g14", 1, 1, "cmd"), ("g14b", 1, 1, "cmd"), ("gjoin3", 2, 2, "cmd", ",")]
+        combos = [("g3", 1, 1, "cmd"), ("g3", 1, 1, "func"), ("g7", 1, 1, "cmd"), ("g14a", 1, 1, "cmd"), ("g8", 1, 1, "cmd"), ("g8", 2, 1, "cmd", "escparam"), ("g14", 1, 1, "cmd"), ("g14b", 1, 1, "cmd"), ("gjoin3", 2, 2, "cmd", ","), ("g3", 1, 1, "cmd", "absout")]
         if not q:
             combos += [("g6", 1, 2, "cmd"), ("g3", 2, 2, "cmd"), ("g8", 2, 2, "cmd"), ("g14a", 2, 2, "func"), ("g6b", 1, 1, "cmd"), ("g7", 1, 2, "cmd"), ("g3", 2, 2, "func")]
         runto = {"g3": [["p"]], "g7": [["p"], ["q"]], "g14a": [["p"], ["tg"]], "g14": [["p"]], "g14b": [["d"]], "g6b": [["p"]], "g6": [["p"], ["q"], ["q", "r"]], "g8": [["p"]]}
@@ -62,7 +68,7 @@ def setup(J):
                 J.with_delay_fallback(j)
                 jobs.append(j)
                 # (a) every RunTo prefix ...
-                for targets in runto.get(g, []):
+                for targets in ([] if sfx == "-absout" else runto.get(g, [])):   # (histories are relocated copies of the working directory: absolute paths recorded in them would point to the old place)
                     pj = J.wf("C11", g, i, 1, m, kind, mode="single", oracles=["nohang", "clean"], tier=tier, events_dep=False, runto=targets, id=f"C11-prefix-{g}-i{i}-m{m}-{kind}{sfx}-to-{'+'.join(targets)}", **ex)
                     pj["save_final"] = os.path.join(ctx["scratch"], "final", pj["id"])
                     pj["_prefix"] = True
@@ -106,7 +112,7 @@ def setup(J):
                         fj["oracles"] = ["nohang", "c10", "c11-roundtrip", "c11-unchanged"]
                         fj["budget"] = J.budget(tier, 10, 120)
                         jobs.append(fj)
-                if j.get("_full"):
+                if j.get("_full") and j["scen"].get("extra") != "absout":
                     units = (r.get("extra_info") or {}).get("task_outputs") or []
                     idxs = list(range(len(units)))
                     n = 0
